@@ -221,13 +221,15 @@ MC_CORE = {"quick": [("MCMarmot.tla", "MC_core_quick.cfg", 600)],
            "thorough": [("MCMarmot.tla", "MC_core_quick.cfg", 600)]}
 
 
-def core_profiles(extra=None, n=12, steps=40):
-    q = [dict(n=n, steps=steps, backend="mem", regime="causal"),
-         dict(n=n, steps=steps, backend="sql", regime="causal"),
-         dict(n=n, steps=steps, backend="mixed", regime="causal", retention=2)]
+def core_profiles(extra=None, n=10, steps=40):
+    q = [dict(n=n, steps=steps, backend="mem", regime="causal", profile="core"),
+         dict(n=n, steps=steps, backend="sql", regime="causal", profile="core"),
+         dict(n=n, steps=steps + 10, backend="mixed", regime="causal", retention=2, profile="members"),
+         dict(n=n, steps=steps + 10, backend="sql", regime="causal", profile="members")]
     t = []
-    for i in range(8):
-        t.append(dict(n=60, steps=60, backend=["mem", "sql", "mixed"][i % 3], regime="causal", retention=[5, 2, 1, 3][i % 4]))
+    for i in range(10):
+        t.append(dict(n=50, steps=60, backend=["mem", "sql", "mixed"][i % 3], regime="causal",
+                      retention=[5, 2, 1, 3][i % 4], profile=["core", "members"][i % 2]))
     if extra:
         for p in q + t:
             p.update(extra)
